@@ -46,21 +46,21 @@ func applyReject(t *Tape, tpl int, c *CmdDecl, toks []string, cause rejectCause)
 	insert := func(tok ...string) {
 		pos := t.Draw(len(out) + 1)
 		// never split an option from its separate value
-		for pos > 0 && pos < len(out) && (out[pos-1] == "-n" || out[pos-1] == "--num" || out[pos-1] == "-s" || out[pos-1] == "--probe") {
+		for pos > 0 && pos < len(out) && (out[pos-1] == "-n" || out[pos-1] == "--num" || out[pos-1] == "-s" || out[pos-1] == "--probe" || out[pos-1] == "--host") {
 			pos--
 		}
 		out = append(out[:pos], append(append([]string{}, tok...), out[pos:]...)...)
 	}
 	switch cause {
 	case rcMissingPositional:
-		if !hasTpl(tpl, 2, 3, 4) {
+		if !hasTpl(tpl, 2, 3, 4, 7) {
 			return nil, false
 		}
 		kept := []string{}
 		for i := 0; i < len(out); i++ {
 			if strings.HasPrefix(out[i], "-") {
 				kept = append(kept, out[i])
-				if out[i] == "-n" || out[i] == "--num" {
+				if out[i] == "-n" || out[i] == "--num" || out[i] == "--host" {
 					kept = append(kept, out[i+1])
 					i++
 				}
@@ -68,7 +68,7 @@ func applyReject(t *Tape, tpl int, c *CmdDecl, toks []string, cause rejectCause)
 		}
 		return kept, true
 	case rcSurplusPositional:
-		if !hasTpl(tpl, 0, 1, 2, 3, 5, 6) {
+		if !hasTpl(tpl, 0, 1, 2, 3, 5, 6, 7) {
 			return nil, false
 		}
 		out = append(out, []string{"y0", "y1", "y2", "", " "}[t.Draw(5)])
@@ -529,13 +529,19 @@ func c14Invocation(t *Tape, tc *TreeCase, kind string) *c07Case {
 		toks := tc.Tokens[c.Level]
 		pos := t.Draw(len(toks) + 1)
 		tc.Tokens[c.Level] = append(append(append([]string{}, toks[:pos]...), c.HelpTok), toks[pos:]...)
+		if c.Level == 0 && t.Draw(4) == 0 {
+			// a declared version flag right behind the help token: not in first position, so it is no version request
+			tc.App.Version = []string{"V version", "8.8.8-sim"}
+			vt := []string{"-V", "--version"}[t.Draw(2)]
+			tc.Tokens[0] = append(append(append(append([]string{}, toks[:pos]...), c.HelpTok), vt), toks[pos:]...)
+		}
 	case "help-as-data":
 		// a level whose spec takes positionals after `--`: X... (template 4) or X (template 2)
 		lvl := -1
 		start := t.Draw(len(tc.Path))
 		for k := 0; k < len(tc.Path); k++ {
 			l := (start + k) % len(tc.Path)
-			if tc.Tpl[l] == 4 || tc.Tpl[l] == 2 {
+			if tc.Tpl[l] == 4 || tc.Tpl[l] == 2 || tc.Tpl[l] == 7 {
 				lvl = l
 				break
 			}
@@ -545,7 +551,7 @@ func c14Invocation(t *Tape, tc *TreeCase, kind string) *c07Case {
 			break
 		}
 		c.Level = lvl
-		if tc.Tpl[lvl] == 2 {
+		if tc.Tpl[lvl] == 2 || tc.Tpl[lvl] == 7 {
 			tc.Tokens[lvl] = []string{"--", c.HelpTok}
 		} else {
 			toks := append([]string{"--"}, tc.Tokens[lvl]...)
@@ -647,7 +653,7 @@ func c14Verdict(c *c07Case, runs [3]policyRun, st *Stats) *Violation {
 		if len(r.p.Observed()) != 0 {
 			return &Violation{Clause: "help-runs-nothing", Detail: pn + ": a " + c.Kind + " request ran a callback", Expected: "no callback event", Observed: obs}
 		}
-		eff := policies[i]
+		eff := effectivePolicy(c.Tree, 0, policies[i]) // a version request is the application's own business
 		if c.Kind == "help" {
 			eff = effectivePolicy(c.Tree, c.Level, policies[i])
 			if eff != policies[i] {
